@@ -103,16 +103,22 @@ inductive Decoded where
 
 def nonZero (n : Nat) : Option Nat := if n = 0 then none else some n
 
+/-- fewer than `k` bytes left (looks at the first `k` bytes only, so that parsing a header of n entries is linear) -/
+def shorterThan (r : Bytes) (k : Nat) : Bool := (r.take k).length < k
+
+theorem shorterThan_iff (r : Bytes) (k : Nat) : shorterThan r k = true ↔ r.length < k := by
+  simp only [shorterThan, List.length_take, decide_eq_true_eq]; omega
+
 /-- `HeaderEntry::read` -/
 def decodeEntry (bs : Bytes) : Decoded :=
   match bs with
   | [] => .eof
   | m :: r =>
     if m = 0 ∨ m = 1 then
-      if r.length < 4 + ID_LEN then .bad else
+      if shorterThan r (4 + ID_LEN) then .bad else
       .entry (if m = 0 then .data else .tree) (le32Val r) none (beVal ((r.drop 4).take ID_LEN)) (r.drop (4 + ID_LEN))
     else if m = 2 ∨ m = 3 then
-      if r.length < 8 + ID_LEN then .bad else
+      if shorterThan r (8 + ID_LEN) then .bad else
       .entry (if m = 2 then .data else .tree) (le32Val r) (nonZero (le32Val (r.drop 4)))
         (beVal ((r.drop 8).take ID_LEN)) (r.drop (8 + ID_LEN))
     else .bad
